@@ -1326,11 +1326,11 @@ class Exerciser:
                     summ["scalar_zero_sign_or_nan_bits"] = summ.get("scalar_zero_sign_or_nan_bits", 0) + 1
                     summ.setdefault("scalar_zero_sign_example", {"args": [repr(a) for a in sargs], "scalar": repr(rn), "array": repr(gn)})
                 if w > self.o["ulp_tol"] and bad is None:
-                    bad = (i, sargs, r, got, w)
+                    bad = (i, [pick(s_, v_, i) for s_, v_ in zip(specs, vals)], r, got, w)
             else:
                 worst = max(worst, 10 ** 9)
                 if bad is None:
-                    bad = (i, sargs, r, got, None)
+                    bad = (i, [pick(s_, v_, i) for s_, v_ in zip(specs, vals)], r, got, None)
         summ["scalar_checked"] += nchk
         summ["scalar_exact"] += nexact
         summ["scalar_ulp_max"] = max(summ["scalar_ulp_max"], worst if worst < 10 ** 9 else 10 ** 9)
